@@ -108,6 +108,7 @@ type thread struct {
 type sched struct {
 	cfg      Config
 	threads  []*thread
+	live     []*thread // threads that have not finished, in creation order
 	cur      *thread
 	points   []Point
 	finish   chan struct{}
@@ -240,6 +241,7 @@ func (s *sched) newThread(name string, lib bool, parent *thread) *thread {
 		t.path = 1
 	}
 	s.threads = append(s.threads, t)
+	s.live = append(s.live, t)
 	return t
 }
 
@@ -333,8 +335,21 @@ func (s *sched) schedule(me *thread) {
 			en = append(en, me)
 		}
 	}
-	for _, t := range s.threads {
-		if t == me || t.done {
+	// threads that have finished are dropped from the scan list first (an execution may create
+	// tens of thousands of short-lived threads); predicates are only evaluated afterwards, since
+	// the quiescing driver's predicate walks the same list
+	live := s.live[:0]
+	for _, t := range s.live {
+		if !t.done {
+			live = append(live, t)
+		}
+	}
+	for i := len(live); i < len(s.live); i++ {
+		s.live[i] = nil
+	}
+	s.live = live
+	for _, t := range s.live {
+		if t == me {
 			continue
 		}
 		if t.pred == nil || t.pred() {
@@ -584,11 +599,11 @@ func Quiesce() {
 		s.fatal("vsync.Quiesce used by two threads")
 	}
 	s.quiescer = me
-	for _, t := range s.threads {
+	for _, t := range s.live {
 		t.demoted = 0
 	}
 	s.point("quiesce", nil, func() bool {
-		for _, t := range s.threads {
+		for _, t := range s.live {
 			if t != me && !t.done && (t.pred == nil || t.pred()) {
 				return false
 			}
@@ -608,7 +623,7 @@ func QuiesceKeep() {
 	me := s.cur
 	s.quiescer = me
 	s.point("quiesce(keep)", nil, func() bool {
-		for _, t := range s.threads {
+		for _, t := range s.live {
 			if t != me && !t.done && t.demoted == 0 && (t.pred == nil || t.pred()) {
 				return false
 			}
